@@ -120,7 +120,7 @@ def split_with_escape(
                         break # repeat loop from the start_from_item, because of separated_items is changed
             else:
                 if trim_trailing_double_escape_characters and separated_items[-1].endswith(escape_character):
-                    count_of_trailing_escape_characters = sum( 1 for _ in itertools.takewhile(lambda ch: ch == escape_character, reversed(item)) )
+                    count_of_trailing_escape_characters = sum( 1 for _ in itertools.takewhile(lambda ch: ch == escape_character, reversed(separated_items[-1])) )
                     count_of_double_escape_characters = count_of_trailing_escape_characters // 2
                     if count_of_double_escape_characters:
                         # Trim double escape charaters of the last element, like it was done for previous elements
